@@ -125,7 +125,9 @@ def oracle_run(cfg):
     if k == 'scale':
         if not any(cfg['mask']):
             return None
-        yls, yh = DTCWTForward(J=J, include_scale=cfg['mask'])(X)
+        enc = cfg['seed'] % 3       # the mask as Python bools, as a numpy bool array (what np.random.binomial(...).astype(bool) gives), as 0/1 ints
+        mask_arg = [bool(v) for v in cfg['mask']] if enc == 0 else (np.array(cfg['mask'], dtype=bool) if enc == 1 else [int(v) for v in cfg['mask']])
+        yls, yh = DTCWTForward(J=J, include_scale=mask_arg)(X)
         if len(yls) != J:
             return dict(detail='include_scale returned %d lowpasses for J=%d' % (len(yls), J))
         _, yh0 = DTCWTForward(J=J)(X)
